@@ -346,3 +346,393 @@ def check_symbols(run, lst, ob):
                 viol.append({"key": "symbol-unexpected",
                              "msg": f"{name}: {gots}"})
     return viol, ctr
+
+
+# ------------------------------------------------------------------ C03
+def check_cfg(run, lst, ob):
+    viol = []
+    ctr = {"edges_compared": 0, "instructions_compared": 0,
+           "dontcare1_halt": 0, "dontcare2_no_code_successor": 0,
+           "dontcare3_zero_block_edges": 0, "dontcare4_pred_of_proxydel": 0}
+    case = run.case
+    labels = lst.label_positions()
+    exp, ft_dontcare, instr_at = irbuild.expected_edges(lst, labels)
+    edge_label = dict(irbuild.expected_edges.edge_label)
+    calls = list(irbuild.expected_edges.calls)
+
+    # identify observed proxies with the deleted block whose labels they
+    # carry (several labels, also slid ones, may share the proxy)
+    proxy_bid = {}
+    for bid, names in lst.proxy_deleted.items():
+        for nme in names:
+            for got in ob.symbols.get(nme, []):
+                if got[0] == "proxy":
+                    proxy_bid.setdefault(got[1], bid)
+
+    def norm_obs_tgt(t):
+        if t[0] == "proxy":
+            if t[1] in proxy_bid:
+                return ("proxydel", proxy_bid[t[1]])
+            return ("anon",)
+        return t
+
+    def norm_tgt(t):
+        if t[0] == "proxydel" and not lst.proxy_deleted.get(t[1]):
+            return ("anon",)
+        return t
+    exp = {(si, p, et, c, d, norm_tgt(t)) for (si, p, et, c, d, t) in exp}
+
+    # structural problems
+    for p in ob.edge_problems:
+        viol.append({"key": f"cfg:{p[0]}", "msg": str(p)})
+    for ipos, mnem in ob.buried:
+        tok = instr_at.get(ipos)
+        origin = "?" if tok is None else (
+            "patch" if tok.patch is not None else "orig")
+        viol.append({"key": f"cfg:buried-control-transfer:{origin}",
+                     "msg": f"{mnem} at {ipos} is not last in its block"})
+    for p in ob.partial:
+        viol.append({"key": "cfg:undecodable-code-block", "msg": str(p)})
+    # instruction boundaries must agree with the listing
+    for key, tok in instr_at.items():
+        ctr["instructions_compared"] += 1
+        info = ob.instrs.get(key)
+        if info is None:
+            viol.append({"key": "cfg:instruction-not-in-code-block",
+                         "msg": f"{tok.key} at {key}"})
+    obs = set()
+    raw_tgt = {}
+    halts = {k for k, t in instr_at.items() if t.kind == "halt"}
+    for (si, p, et, c, d, t, origin) in ob.edges:
+        if origin == "zero":
+            ctr["dontcare3_zero_block_edges"] += 1
+            continue
+        obs.add((si, p, et, c, d, norm_obs_tgt(t)))
+        raw_tgt.setdefault((si, p, et, c, d, norm_obs_tgt(t)), set()).add(t)
+    # don't-care 1: fallthrough after halt-like instructions
+    n0 = len(obs) + len(exp)
+    obs = {e for e in obs if not (e[2] == "ft" and (e[0], e[1]) in halts)}
+    exp = {e for e in exp if not (e[2] == "ft" and (e[0], e[1]) in halts)}
+    ctr["dontcare1_halt"] += n0 - len(obs) - len(exp)
+    # don't-care 2: no physically following code: ft to a proxy, to a
+    # position without code, to the code behind an address gap, or none
+    gap_next = {}
+    for si in range(len(lst.secs)):
+        seq = lst.code_stream(si)
+        for k, (t, contiguous) in enumerate(seq):
+            if t.t == "I" and not contiguous and k + 1 < len(seq) and \
+                    seq[k + 1][0].t == "I":
+                gap_next[(si, t.pos)] = (si, seq[k + 1][0].pos)
+    drop = {e for e in obs if e[2] == "ft" and (e[0], e[1]) in ft_dontcare
+            and (e[5][0] in ("anon", "proxydel", "extern")
+                 or (e[5][0] == "pos" and (e[5][1], e[5][2]) not in instr_at)
+                 or (e[5][0] == "pos" and (e[0], e[1]) in gap_next
+                     and gap_next[(e[0], e[1])] == (e[5][1], e[5][2])))}
+    ctr["dontcare2_no_code_successor"] += len(drop)
+    obs -= drop
+    # don't-care 4: predecessor of a proxy-deleted block may fall through to
+    # that proxy instead of the physical successor
+    proxy_keys = set()
+    for bid, names in lst.proxy_deleted.items():
+        proxy_keys.add(("proxydel", bid) if names else ("anon",))
+    pred_of_proxydel = predecessors_of_proxy_deleted(lst)
+    missing = exp - obs
+    extra = obs - exp
+    for e in list(extra):
+        if e[2] == "ft" and (e[0], e[1]) in pred_of_proxydel and \
+                e[5] in proxy_keys:
+            extra.discard(e)
+            for m in list(missing):
+                if m[:3] == e[:3]:
+                    missing.discard(m)
+            ctr["dontcare4_pred_of_proxydel"] += 1
+    # don't-care 4 for return edges: the return site of a call that is
+    # physically followed by the remains of a proxy-deleted block may be that
+    # block's proxy (incoming control flow is redirected to the proxy)
+    call_pred = {(si, t.pos) for (si, t, site, tgt) in calls
+                 if (si, t.pos) in pred_of_proxydel}
+    if call_pred:
+        for e in list(extra):
+            anon_ok = any(not n for n in lst.proxy_deleted.values())
+            if e[2] == "return" and (e[5][0] == "proxydel" or (
+                    e[5] == ("anon",) and anon_ok)):
+                tok = instr_at.get((e[0], e[1]))
+                ok = any((si, t.pos) in call_pred for (si, t, site, tgt) in calls)
+                if tok is not None and ok:
+                    extra.discard(e)
+                    ctr["dontcare4_pred_of_proxydel"] += 1
+                    # its counterpart: the expected anon/site edge of that ret
+                    for m in list(missing):
+                        if m[:3] == e[:3]:
+                            missing.discard(m)
+                            break
+    # a call that is not physically followed by code has no return site in
+    # the listing; its callee's returns may then lead to an unknown proxy or
+    # to the (code-less) position right behind the call
+    alt_sites = {}
+    for (si, t, site, ctgt) in calls:
+        if site is None and ctgt[0] == "pos":
+            callee = instr_at.get((ctgt[1], ctgt[2]))
+            if callee is not None and callee.fn is not None:
+                alt_sites.setdefault(callee.fn, set()).add(
+                    ("pos", si, t.pos + t.size))
+    ctr["dontcare2_return_to_codeless_site"] = 0
+    for e in list(extra):
+        if e[2] != "return" or e[5][0] != "pos":
+            continue
+        tok = instr_at.get((e[0], e[1]))
+        if tok is not None and e[5] in alt_sites.get(tok.fn, ()):
+            extra.discard(e)
+            ctr["dontcare2_return_to_codeless_site"] += 1
+            for m in list(missing):
+                if m[:3] == e[:3] and m[5] == ("anon",):
+                    missing.discard(m)
+    # a call whose target label stands in front of no code (end of section,
+    # data) has no callee in the listing: return edges to its site are not
+    # judged
+    free_sites = set()
+    for (si, t, site, ctgt) in calls:
+        if ctgt[0] == "pos" and (ctgt[1], ctgt[2]) not in instr_at:
+            free_sites.add(("pos", si, site if site is not None
+                            else t.pos + t.size))
+    ctr["dontcare2_call_to_codeless_label"] = 0
+    for e in list(extra):
+        if e[2] == "return" and e[5] in free_sites:
+            extra.discard(e)
+            ctr["dontcare2_call_to_codeless_label"] += 1
+            rest = [x for x in extra if x[:3] == e[:3]]
+            if not rest:
+                for m in list(missing):
+                    if m[:3] == e[:3] and m[5] == ("anon",):
+                        missing.discard(m)
+    # a direct branch/call must lead to where its target label IS; where the
+    # label itself is displaced (judged by C02) the edge may follow it
+    ctr["edge_follows_displaced_label"] = 0
+    for m in list(missing):
+        name = edge_label.get((m[0], m[1], m[2]))
+        if name is None or m[2] not in ("branch", "call"):
+            continue
+        got = ob.symbols.get(name)
+        if not got or len(got) != 1:
+            continue
+        got = got[0]
+        want = None
+        if got[0] == "pos":
+            want = ("pos", got[1], got[2])
+        elif got[0] == "proxy":
+            want = ("proxy", got[1])
+        for e in list(extra):
+            if e[:5] == m[:5] and want in raw_tgt.get(e, ()):
+                extra.discard(e)
+                missing.discard(m)
+                ctr["edge_follows_displaced_label"] += 1
+                break
+    ctr["edges_compared"] += len(exp | obs)
+    seq_index = {}
+    for si in range(len(lst.secs)):
+        seq = [t for t, _ in lst.code_stream(si)]
+        for k, t in enumerate(seq):
+            seq_index[id(t)] = (si, k, seq)
+    fn_had_ret = set()
+    for s in case["secs"]:
+        for iv in s["ivs"]:
+            for b in iv["blocks"]:
+                if b["code"]:
+                    for it in b["items"]:
+                        if it["k"] == "ret":
+                            fn_had_ret.add(lst.block_fn.get(b["id"]))
+
+    def describe(e, what):
+        tok = instr_at.get((e[0], e[1]))
+        if tok is None:
+            return f"cfg:{what}:{e[2]}:src-unknown"
+        origin = "patch" if tok.patch is not None else "orig"
+        ctxs = []
+        si, k, seq = seq_index[id(tok)]
+        nxt = seq[k + 1] if k + 1 < len(seq) else None
+        if e[2] == "ft":
+            fall = "fall" if tok.kind in ("ord", "call", "jcc", "icall") \
+                else "nofall"
+            ctxs.append(fall)
+            ctxs.append(boundary_class(tok, nxt))
+            if what == "missing":
+                ctxs.append(missing_ft_context(lst, case, tok, nxt))
+        if e[2] == "return":
+            return "cfg:%s:return:%s" % (what, return_context(
+                e, what, tok, origin))
+        if e[2] in ("branch", "call"):
+            ctxs.append(f"to-{e[5][0]}")
+        if e[2] == "ft":
+            return f"cfg:{what}:ft:" + ":".join(c for c in ctxs if c)
+        return f"cfg:{what}:{e[2]}:{tok.kind}:{origin}:" + ":".join(ctxs)
+
+    input_fn_of_label = input_label_functions(case)
+    fn_orig_ret_left = {t.fn for t in instr_at.values()
+                        if t.kind == "ret" and t.patch is None}
+    missing_ft_src0 = {(m[0], m[1]) for m in missing if m[2] == "ft"}
+    missing_ret_src = {(m[0], m[1]) for m in missing if m[2] == "return"
+                       and m[5][0] == "pos"}
+
+    def return_context(e, what, tok, origin):
+        tgt = e[5]
+        if what == "missing" and tgt[0] == "pos":
+            # the call whose return site this is
+            cs = [(si, t) for (si, t, site, ctgt) in calls
+                  if site == tgt[2] and si == tgt[1]]
+            c = cs[0][1] if cs else None
+            if c is not None and (tgt[1], c.pos) in missing_ft_src0:
+                return "site-after-unlinked-call"
+            if c is not None and c.patch is not None and \
+                    tok.patch is not None and c.patch == tok.patch:
+                return "call-and-ret-in-same-patch"
+            if tok.patch is not None and tok.fn not in fn_orig_ret_left:
+                return "patch-ret-in-function-without-other-ret"
+            if c is not None and c.target in input_fn_of_label and \
+                    input_fn_of_label[c.target] != tok.fn:
+                return "callee-changed-by-label-slide"
+            if c is not None and (tgt[1], c.pos) in pred_of_proxydel:
+                return "missing-site:return-site-block-proxy-deleted"
+            corig = "?" if c is None else (
+                "patchcall" if c.patch is not None else "origcall")
+            return f"missing-site:{origin}-ret:{corig}"
+        if what == "missing":
+            if any(x[2] == "return" and x[:2] == e[:2] for x in extra):
+                return None    # flip side of the extra return edge
+            return f"missing-unknown-proxy:{origin}-ret"
+        # extra
+        if tgt[0] in ("anon", "proxydel") and \
+                (e[0], e[1]) in missing_ret_src:
+            return None    # flip side of a missing site edge
+        if tgt[0] == "pos":
+            cs = [(si, t, ctgt) for (si, t, site, ctgt) in calls
+                  if site == tgt[2] and si == tgt[1]]
+            if cs:
+                c, ctgt = cs[0][1], cs[0][2]
+                if ctgt[0] in ("proxydel", "extern"):
+                    return "stale-site:callee-now-proxy"
+                return "stale-site:callee-changed"
+            return f"extra-site:{origin}-ret:no-call-there"
+        return f"extra-unknown-proxy:{origin}-ret"
+
+    for e in sorted(missing, key=repr):
+        k = describe(e, "missing")
+        if k.endswith(":None"):
+            continue
+        viol.append({"key": k, "msg": f"missing edge {e}"})
+    missing_ft_src = {(m[0], m[1]) for m in missing if m[2] == "ft"}
+    for e in sorted(extra, key=repr):
+        if e[2] == "ft" and (e[0], e[1]) in missing_ft_src and \
+                e[5][0] in ("anon", "proxydel"):
+            continue    # flip side of the missing fallthrough reported above
+        k = describe(e, "extra")
+        if k.endswith(":None"):
+            continue
+        viol.append({"key": k, "msg": f"extra edge {e}"})
+    return viol, ctr
+
+
+def boundary_class(tok, nxt):
+    if nxt is None:
+        return "at-section-end"
+    if nxt.t != "I":
+        return "before-data"
+    a = "patch" if tok.patch is not None else "orig"
+    b = "patch" if nxt.patch is not None else "orig"
+    if a == "orig" and b == "orig":
+        if tok.uid[1] == nxt.uid[1]:
+            return ("intra-block" if nxt.uid[2] == tok.uid[2] + 1
+                    else "intra-block-across-deletion")
+        return "block-boundary"
+    if a == "patch" and b == "patch":
+        return ("intra-patch" if tok.patch == nxt.patch
+                else "patch-to-patch")
+    return f"{a}-to-{b}"
+
+
+def predecessors_of_proxy_deleted(lst):
+    """positions of instructions physically followed by the remains of a
+    proxy-deleted block"""
+    res = set()
+    for si, ivs in enumerate(lst.secs):
+        seq = [t for toks in ivs for t in toks]
+        last_instr = None
+        for t in seq:
+            if t.t == "I":
+                last_instr = t
+            elif t.t == "D":
+                last_instr = None
+            elif t.t == "B" and t.bid in lst.proxy_deleted and \
+                    last_instr is not None:
+                res.add((si, last_instr.pos))
+    return res
+
+
+def input_block_ends(case):
+    """bid -> (last instruction can fall through, code physically follows)
+    for every code block of the INPUT listing"""
+    from .listing import Listing
+    l0 = Listing(case)
+    l0.layout()
+    res = {}
+    for si in range(len(l0.secs)):
+        seq = l0.code_stream(si)
+        for k, (t, contiguous) in enumerate(seq):
+            if t.t != "I":
+                continue
+            nxt = seq[k + 1][0] if contiguous and k + 1 < len(seq) else None
+            if nxt is None or nxt.bid != t.bid:
+                res[t.bid] = (t.kind in ("ord", "call", "jcc", "icall"),
+                              nxt is not None and nxt.t == "I")
+    return res
+
+
+def missing_ft_context(lst, case, tok, nxt):
+    """which original block end governs the boundary after tok, and did that
+    block end have a fallthrough edge to code in the input?"""
+    if nxt is None:
+        return ""
+    owner = tok.bid if tok.patch is None else (
+        tok.site[0] if tok.site else None)
+    if owner is None:
+        return ""
+    # the boundary lies at/after the end of owner's original content iff no
+    # surviving original item of owner follows tok
+    after = False
+    seen = False
+    for si, ii, t in lst.all_tokens():
+        if t is tok:
+            seen = True
+            continue
+        if seen and t.t in "ID" and t.patch is None and t.bid == owner:
+            after = True
+            break
+    if after:
+        return ""
+    falls, succ = input_block_ends(case).get(owner, (True, True))
+    if not succ:
+        return "no-input-code-successor"
+    # a wholly deleted data block between tok and nxt
+    seen = False
+    for si, ii, t in lst.all_tokens():
+        if t is tok:
+            seen = True
+        elif t is nxt:
+            break
+        elif seen and t.t == "B" and not t.code and (
+                t.bid in lst.deleted_blocks or t.bid in lst.proxy_deleted):
+            return "data-deleted-between"
+    if not falls:
+        return "input-terminator-removed"
+    return ""
+
+
+def input_label_functions(case):
+    """label name -> function name of the block carrying it in the input"""
+    fn_of = {b: f["name"] for f in case.get("funcs", []) for b in f["blocks"]}
+    res = {}
+    for s in case["secs"]:
+        for iv in s["ivs"]:
+            for b in iv["blocks"]:
+                for nme in b.get("labels", []):
+                    res[nme] = fn_of.get(b["id"])
+    return res
